@@ -58,7 +58,8 @@ class Config:
     batch: int = 4
     skip_layers: list[str] = field(default_factory=list)
     sched: dict[str, str] = field(default_factory=dict)  # param -> fn name
-    grad_scaler: float | None = None
+    grad_scaler: Any = None      # float: constant loss scale; 'dyn<base>':
+    # the scale changes from micro-batch to micro-batch (base * 2**k)
     sgd_lr: float = 0.05
     ddp: bool = True               # driver averages gradients over ranks (a
                                    # synchronising collective per iteration);
@@ -299,10 +300,46 @@ def build_precond(cfg: Config, model: torch.nn.Module) -> Any:
         skip_layers=list(cfg.skip_layers),
         update_factors_in_hook=cfg.in_hook,
     )
+    cell = {'v': loss_scale(cfg, 0, 0)}
     if cfg.grad_scaler is not None:
-        sc = cfg.grad_scaler
-        kwargs['grad_scaler'] = lambda: sc
-    return KFACPreconditioner(model, **kwargs)
+        kwargs['grad_scaler'] = lambda: cell['v']
+    pre = KFACPreconditioner(model, **kwargs)
+    pre._verif_scale_cell = cell        # the driver's GradScaler state
+    return pre
+
+
+def loss_scale(cfg: 'Config', it: int, mb: int) -> float | None:
+    """The loss scale in effect for micro-batch mb of iteration it."""
+    gs = cfg.grad_scaler
+    if gs is None:
+        return None
+    if isinstance(gs, str):
+        return float(gs[3:]) * 2 ** ((it + 2 * mb) % 3)
+    return float(gs)
+
+
+def scaled_backward(model: torch.nn.Module, pre: Any, loss: torch.Tensor,
+                    scale: float | None) -> None:
+    """loss.backward() under loss scaling: the gradients of this micro-batch
+    are unscaled with ITS scale and added to what is already accumulated."""
+    if scale is None:
+        loss.backward()
+        return
+    pre._verif_scale_cell['v'] = scale
+    params = [p for p in model.parameters()]
+    prev = [None if p.grad is None else p.grad.detach().clone()
+            for p in params]
+    for p in params:
+        p.grad = None
+    (loss * scale).backward()
+    with torch.no_grad():
+        for p, g0 in zip(params, prev):
+            if p.grad is None:
+                p.grad = g0
+                continue
+            p.grad.div_(scale)
+            if g0 is not None:
+                p.grad.add_(g0)
 
 
 SECOND_ORDER_EXCLUDE = {
@@ -318,26 +355,86 @@ def layer_holdings(layer: Any) -> dict[str, int]:
     wait: futures that are not done are reported with -1.
     """
     out: dict[str, int] = {}
-    for k, v in vars(layer).items():
-        name = k.lstrip('_')
-        if isinstance(v, torch.Tensor):
-            out[name] = v.nelement() * v.element_size()
-        elif isinstance(v, (torch._C.Future, torch.futures.Future)):
-            if v.done():
-                try:
-                    t = v.value()
-                except Exception:  # noqa: BLE001
-                    t = None
-                if isinstance(t, torch.Tensor):
-                    out[name] = t.nelement() * t.element_size()
-                else:
-                    out[name] = -1
-            else:
+    seen: set[int] = set()
+
+    def visit(name: str, v: Any, depth: int) -> None:
+        if isinstance(v, (torch._C.Future, torch.futures.Future)):
+            if not v.done():
                 out[name] = -1
+                return
+            try:
+                v = v.value()
+            except Exception:  # noqa: BLE001
+                out[name] = -1
+                return
+            if not isinstance(v, torch.Tensor):
+                out[name] = -1
+                return
+        if isinstance(v, torch.Tensor):
+            key = v.untyped_storage().data_ptr() if v.numel() else id(v)
+            if key in seen:
+                return
+            seen.add(key)
+            out[name] = v.nelement() * v.element_size()
+        elif depth < 2 and isinstance(v, dict):
+            for k2, v2 in v.items():
+                visit(f'{name}.{k2}', v2, depth + 1)
+        elif depth < 2 and isinstance(v, (list, tuple)):
+            for i, v2 in enumerate(v):
+                visit(f'{name}.{i}', v2, depth + 1)
+        elif depth < 2 and type(v).__module__.startswith('kfac.layers') \
+                and not isinstance(v, torch.nn.Module) \
+                and hasattr(v, '__dict__') and not hasattr(v, 'module'):
+            # small private helper objects (accumulators ...)
+            for k2, v2 in vars(v).items():
+                visit(f'{name}.{k2.lstrip("_")}', v2, depth + 1)
+
+    for k, v in vars(layer).items():
+        if k in ('module', 'tdc'):
+            continue
+        visit(k.lstrip('_'), v, 0)
+    return out
+
+
+def _public_tensor_ids(layer: Any) -> set[int]:
+    """Storage ids of the tensors behind the PUBLIC factor / gradient
+    attributes (never blocking)."""
+    from harness import simdist
+    ids = set()
+    for attr in ('a_factor', 'g_factor', 'grad'):
+        try:
+            with simdist.nonblocking():
+                t = getattr(layer, attr, None)
+        except Exception:  # noqa: BLE001
+            t = None
+        if isinstance(t, torch.Tensor) and t.numel():
+            ids.add(t.untyped_storage().data_ptr())
+    return ids
+
+
+def _second_order_public(layer: Any) -> dict[str, int]:
+    """Second-order data read through the PUBLIC attributes of the eigen /
+    inverse layers (used when the private layout is not the pinned one)."""
+    from harness import simdist
+    out = {}
+    for attr in ('qa', 'qg', 'da', 'dg', 'dgda', 'a_inv', 'g_inv'):
+        try:
+            with simdist.nonblocking():
+                t = getattr(layer, attr, None)
+        except simdist.WouldBlock:
+            out[attr] = -1
+            continue
+        except Exception:  # noqa: BLE001
+            continue
+        if isinstance(t, torch.Tensor):
+            out[attr] = t.nelement() * t.element_size()
     return out
 
 
 def second_order_held(layer: Any) -> dict[str, int]:
+    d = vars(layer)
+    if not any(('_' + k) in d or k in d for k in ('a_factor', 'g_factor')):
+        return _second_order_public(layer)
     return {
         k: v for k, v in layer_holdings(layer).items()
         if k not in SECOND_ORDER_EXCLUDE
@@ -395,17 +492,18 @@ class RankRun:
                      'train': mode_train, 'backward': backward,
                      'steps': self.pre.steps},
                 )
+            sc = loss_scale(cfg, self.it, mb)
+            if sc is not None:
+                self.pre._verif_scale_cell['v'] = sc
             out = self.model(x)
             if backward:
-                loss = loss_fn(out, y, out.shape[0] // cfg.union, cfg.grad_scaler)
-                loss.backward()
+                loss = loss_fn(out, y, out.shape[0] // cfg.union, None)
+                scaled_backward(self.model, self.pre, loss, sc)
         if backward:
             with torch.no_grad():
                 for p in self.model.parameters():
                     if p.grad is None:
                         continue
-                    if cfg.grad_scaler is not None:
-                        p.grad.div_(cfg.grad_scaler)
                     if n_micro > 1:
                         p.grad.div_(n_micro)
             if cfg.W > 1 and cfg.ddp:
